@@ -658,4 +658,17 @@ V("c02-gcm-invalid-tag-swallowed", "C02", "break", "R02.4", "GCM decrypt swallow
 V("c16-1pu-sender-key-none-unguarded", "C16", "break", "E6", "ECDH-1PU decryption uses recipient.sender_key without the None guard",
   "drafts/jwe_ecdh_1pu.py", "        if sender_key is None:\n            raise ValueError('Missing \"sender_key\" for ECDH-1PU')\n        assert recipient_key is not None\n\n        self.check_key_type(recipient_key)\n        ephemeral_key = recipient_key.import_key",
   "        assert recipient_key is not None\n\n        self.check_key_type(recipient_key)\n        ephemeral_key = recipient_key.import_key")
+V("c11-pem-explicit-encoding-refused", "C11", "break", "R11.10", "explicit encoding='PEM' no longer selects PEM",
+  "rfc7517/pem.py", "    if encoding is None or encoding == \"PEM\":", "    if encoding is None:")
+V("c11-der-yields-pem", "C11", "break", "R11.10", "encoding='DER' selects the PEM encoder",
+  "rfc7517/pem.py", "    elif encoding == \"DER\":\n        encoding_enum = Encoding.DER", "    elif encoding == \"DER\":\n        encoding_enum = Encoding.PEM")
+V("c11-benign-encoding-dispatch-reordered", "C11", "benign", "", "DER tested first",
+  "rfc7517/pem.py", "    if encoding is None or encoding == \"PEM\":\n        encoding_enum = Encoding.PEM\n    elif encoding == \"DER\":\n        encoding_enum = Encoding.DER\n    else:",
+  "    if encoding == \"DER\":\n        encoding_enum = Encoding.DER\n    elif encoding is None or encoding == \"PEM\":\n        encoding_enum = Encoding.PEM\n    else:")
+V("c11-extra-member-in-dict-view", "C11", "break", "R11.11", "a key built from a JWK keeps an extra member",
+  "rfc7517/models.py", "                data = {**original_value, \"kty\": self.key_type}", "                data = {**original_value, \"ktyx\": self.key_type}")
+V("c08-p2c-one-refused", "C08", "break", "R08.5", "an iteration count of 1 is refused",
+  "rfc7518/jwe_algs.py", "        if p2c < 1 or p2c > self.MAX_P2C:", "        if p2c <= 1 or p2c > self.MAX_P2C:")
+V("c08-benign-p2c-mirrored", "C08", "benign", "", "lower bound written with the constant on the left",
+  "rfc7518/jwe_algs.py", "        if p2c < 1 or p2c > self.MAX_P2C:", "        if 1 > p2c or p2c > self.MAX_P2C:")
 
